@@ -70,6 +70,67 @@ def sites(usage: str, pic: str) -> dict[str, str]:
     return out
 
 
+def records_with_shared_names(ck: Check, n: int) -> None:
+    """whole records: several groups whose items reuse the same data names (CODE OF HDR / CODE OF TRL) with different pictures and
+    usages, some under OCCURS; the width of every item's location, under every reader, is its own calcsize, and the record is their sum"""
+    from stingray.cobol_parser import schema_iter
+    from stingray.schema_instance import EBCDIC, LocationMaker, SchemaMaker, Struct, TextUnpacker
+
+    rng = ck.rng
+    pool = ["CODE", "AMOUNT", "SEQ", "FLAG", "QTY"]
+    for k in range(n):
+        display_only = k % 3 == 2
+        lines = ["       01  REC."]
+        want: list[tuple[str, str, int, int, str]] = []   # group, name, occurs, width, clause
+        for g in range(rng.randint(2, 4)):
+            occ = rng.choice([1, 1, 2, 3])
+            lines.append(f"           05  GRP-{g}" + (f" OCCURS {occ} TIMES" if occ > 1 else "") + ".")
+            for name in rng.sample(pool, rng.randint(1, 4)):
+                if display_only or rng.random() < 0.4:
+                    u, s, m, nn = "DISPLAY", rng.random() < 0.3, rng.randint(1, 9), rng.choice([0, 0, 2])
+                else:
+                    u = rng.choice([x for x in USAGES if FAM[x] in ("packed", "binary")])
+                    s, m, nn = (FAM[u] == "packed" and rng.random() < 0.5), rng.randint(1, 9), (rng.choice([0, 2]) if FAM[u] == "packed" else 0)
+                if rng.random() < 0.3 and u == "DISPLAY":
+                    pic = f"X({rng.randint(1, 12)})"
+                    w = int(pic[2:-1])
+                else:
+                    pic = picture(s, m, nn, style=k % 3)
+                    w = spec_width(FAM[u], s, m, nn)
+                clause = f"PIC {pic}" + (f" USAGE {u}" if u != "DISPLAY" or rng.random() < 0.3 else "")
+                lines.append(f"               10  {name} {clause}.")
+                want.append((f"GRP-{g}", name, occ, w, clause))
+        text = "\n".join(lines) + "\n"
+        inp = {"copybook": text}
+        ck.case(("record", text), feature="record/shared-names" + ("/display-only" if display_only else ""))
+        try:
+            schema = SchemaMaker.from_json(next(iter(schema_iter(io.StringIO(text)))))
+        except BaseException as ex:  # noqa: BLE001
+            ck.fail("record-schema", f"record with item names reused in different groups cannot be loaded: {enum(ex)}", inp)
+            continue
+        readers = [("EBCDIC", EBCDIC())] + ([("Struct", Struct()), ("Text", TextUnpacker())] if display_only else [])
+        for rname, unp in readers:
+            ck.oracle_evaluations += 1
+            try:
+                loc = LocationMaker(unp, schema).from_schema()
+                total = 0
+                for grp, name, occ, w, clause in want:
+                    gl = loc.properties[grp]  # type: ignore[attr-defined]
+                    one = gl.items if occ > 1 else gl
+                    fl = one.properties[name]
+                    got = fl.end - fl.start
+                    total += w * occ
+                    if got != w:
+                        ck.fail("record-item-width", f"{rname}: {name} OF {grp} ({clause}) is located in {got} bytes; its size function says {w}",
+                                {**inp, "reader": rname, "item": f"{name} OF {grp}"})
+                        break
+                else:
+                    if loc.end != total:
+                        ck.fail("record-item-width", f"{rname}: record length {loc.end}, the items' sizes sum to {total}", {**inp, "reader": rname})
+            except BaseException as ex:  # noqa: BLE001
+                ck.fail("record-item-width", f"{rname}: locating the items of the record raises {enum(ex)}", {**inp, "reader": rname})
+
+
 def explore(ck: Check, full_sites: bool) -> None:
     rng = ck.rng
     reqs: list[str] = []
@@ -145,6 +206,7 @@ def explore(ck: Check, full_sites: bool) -> None:
             inputs.append({"format": fmt})
             if got != want:
                 ck.fail("usage-word-in-data-name", f"calcsize({fmt!r}) = {got}; as 'USAGE {want_u} PIC {pic}' it is {want}", {"format": fmt})
+    records_with_shared_names(ck, 40 if full_sites else 12)
     model = ck.driver.run(reqs)
     # Struct-bare / Text-bare were only computed where sites() ran
     keep = [i for i, v in enumerate(impl) if v != "?"]
